@@ -93,7 +93,7 @@ const (
 func (f *fsm) cleanup() {
 	if f.cancelDialFn != nil {
 		f.cancelDialFn()
-		<-f.dialResultCh
+		f.dropDialResult()
 	}
 	f.cleanupConnAndReader()
 	for _, t := range []*time.Timer{f.connectRetryTimer, f.holdTimer,
@@ -101,6 +101,14 @@ func (f *fsm) cleanup() {
 		if t != nil {
 			t.Stop()
 		}
+	}
+}
+
+// dropDialResult waits for the in-flight dial to finish and closes its
+// connection if the dial completed before it could be cancelled.
+func (f *fsm) dropDialResult() {
+	if dr := <-f.dialResultCh; dr != nil && dr.conn != nil {
+		dr.conn.Close()
 	}
 }
 
@@ -307,7 +315,7 @@ func (f *fsm) connect() fsmState {
 		select {
 		case <-f.closeCh:
 			f.cancelDialFn()
-			<-f.dialResultCh
+			f.dropDialResult()
 			f.connectRetryTimer.Stop()
 			return disabledState
 		case dr := <-f.dialResultCh:
